@@ -126,8 +126,11 @@ PROPS = {
     'C16': {'thorough_scale': 0.9, 'jobs': set_jobs(['set_lock'], 4, 17),
             'mechanisms_required': ['cuckoo.onResizeCall', 'cuckoo.onRelocateRound', 'cuckoo.onInsertResize']},
     'C18': {'jobs': set_jobs(['set_list', 'set_hash', 'set_tree', 'set_lock'], 3, 8, quick_scale=0.4, special=SET_SPECIAL, builds_quick=('dbg',), run_special=False)},
-    'C17': {'thorough_scale': 0.35, 'jobs': lambda tier, seed: (shards('rehash', 'dbg', 10, 1, 1500, scale=0.5) + shards('rehash', 'asan', 10, 1, 1500, scale=0.2)) if tier == 'quick'
-                    else (shards('rehash', 'dbg', 10, 1, 7200, scale=1.0) + shards('rehash', 'rel', 10, 1, 7200, scale=1.0) + shards('rehash', 'asan', 10, 1, 7200, scale=0.3))},
+    'C17': {'thorough_scale': 0.35, 'jobs': lambda tier, seed: (shards('rehash', 'dbg', 10, 1, 1500, scale=0.5) + shards('rehash', 'asan', 10, 1, 1500, scale=0.2)
+                                                                    # concurrent growth with private keys (set_lock run with --prop C17)
+                                                                    + shards('set_lock', 'dbg', 4, 4, 900) + shards('set_lock', 'asan', 4, 4, 900, scale=0.3)) if tier == 'quick'
+                    else (shards('rehash', 'dbg', 10, 1, 7200, scale=1.0) + shards('rehash', 'rel', 10, 1, 7200, scale=1.0) + shards('rehash', 'asan', 10, 1, 7200, scale=0.3)
+                          + shards('set_lock', 'dbg', 6, 4, 5400) + shards('set_lock', 'rel', 6, 4, 5400) + shards('set_lock', 'asan', 6, 4, 5400, scale=0.3))},
     'C19': {'thorough_scale': 0.35, 'jobs': set_jobs(['iter'], 6, 11, asan_scale=0.4),
             'mechanisms_required': ['feldman.onExpandNodeSuccess']},
     'C20': {'thorough_scale': 0.4, 'jobs': lambda tier, seed: jobs_C20(tier, seed),
